@@ -13,6 +13,53 @@ package host_rule_conf
 //@   modifies nothing
 //@   ensures[an_accepted_table_has_all_its_parts] result0 == nil ==> conf.Version != nil && conf.Hosts != nil && conf.HostTags != nil
 //@   ensures[the_default_product_of_an_accepted_table_has_host_tags] result0 == nil && conf.DefaultProduct != nil ==> has(*conf.HostTags, *conf.DefaultProduct)
+//@   ensures[every_product_of_an_accepted_table_has_a_tag_list] result0 == nil ==> (forall p string :: has(*conf.HostTags, p) ==> (*conf.HostTags)[p] != nil)
+//@   ensures[every_host_tag_of_an_accepted_table_has_a_host_list] result0 == nil ==> (forall t string :: has(*conf.Hosts, t) ==> (*conf.Hosts)[t] != nil)
 //@   loop 1 invariant[every_product_seen_so_far_has_a_tag_list] forall p string :: visited(p) && has(*conf.HostTags, p) ==> (*conf.HostTags)[p] != nil
 //@   loop 2 invariant[every_product_has_a_tag_list] forall p string :: has(*conf.HostTags, p) ==> (*conf.HostTags)[p] != nil
 //@   loop 3 invariant[every_product_has_a_tag_list] forall p string :: has(*conf.HostTags, p) ==> (*conf.HostTags)[p] != nil
+//@   loop 2 invariant[every_host_tag_seen_so_far_has_a_host_list] forall t string :: visited(t) && has(*conf.Hosts, t) ==> (*conf.Hosts)[t] != nil
+
+// ---- C14: what a host table file means does not depend on map iteration order ----
+// Both conversion loops range over maps. Their results are characterised without reference to the order:
+// every listed host maps to the tag that lists it, every listed tag to the product that lists it, and no two
+// hosts share a lookup key (the key buildHostRoute stores them under). A file for which this cannot hold
+// (a host under two tags, two spellings of one host, a tag under two products) is rejected.
+
+//@ spec hostKeyOf(h string) string := revFqdn(toLower(h))
+//@ spec wfHostFile(c HostTableConf) bool := c.Version != nil && c.Hosts != nil && c.HostTags != nil && (forall p string :: has(*c.HostTags, p) ==> (*c.HostTags)[p] != nil) && (forall t string :: has(*c.Hosts, t) ==> (*c.Hosts)[t] != nil)
+
+//@ func (*HostTableConf).LoadAndCheck
+//@   props C14
+//@   nopanic nil
+//@   requires conf != nil
+//@   modifies *
+//@   ensures[an_accepted_file_has_all_its_parts] result1 == nil ==> wfHostFile(*conf)
+
+//@ func HostRuleConfLoad
+//@   props C14
+//@   nopanic nil,index
+//@   modifies *
+//@   let H := *config.Hosts
+//@   let T := *config.HostTags
+//@   loop 1 invariant[the_file_is_as_checked] wfHostFile(config)
+//@   loop 1 invariant[listed_hosts_of_finished_tags_map_to_their_tag] forall t string :: forall i int :: visited(t) && has(H, t) && 0 <= i && i < len(*H[t]) ==> has(host2HostTag, (*H[t])[i]) && host2HostTag[(*H[t])[i]] == t
+//@   loop 1 invariant[mapped_hosts_have_their_key_marked] forall h string :: has(host2HostTag, h) ==> hostKeys[hostKeyOf(h)]
+//@   loop 1 invariant[mapped_hosts_have_distinct_keys] forall h1 string :: forall h2 string :: has(host2HostTag, h1) && has(host2HostTag, h2) && hostKeyOf(h1) == hostKeyOf(h2) ==> h1 == h2
+//@   loop 2 invariant[the_file_is_as_checked] wfHostFile(config) && has(H, hostTag) && hostnameList == H[hostTag]
+//@   loop 2 invariant[listed_hosts_of_finished_tags_map_to_their_tag] forall t string :: forall i int :: visited(t) && t != hostTag && has(H, t) && 0 <= i && i < len(*H[t]) ==> has(host2HostTag, (*H[t])[i]) && host2HostTag[(*H[t])[i]] == t
+//@   loop 2 invariant[hosts_of_this_tag_so_far_map_to_it] forall i int :: 0 <= i && i <= rangeindex ==> has(host2HostTag, (*hostnameList)[i]) && host2HostTag[(*hostnameList)[i]] == hostTag
+//@   loop 2 invariant[mapped_hosts_have_their_key_marked] forall h string :: has(host2HostTag, h) ==> hostKeys[hostKeyOf(h)]
+//@   loop 2 invariant[mapped_hosts_have_distinct_keys] forall h1 string :: forall h2 string :: has(host2HostTag, h1) && has(host2HostTag, h2) && hostKeyOf(h1) == hostKeyOf(h2) ==> h1 == h2
+//@   loop 3 invariant[the_file_is_as_checked] wfHostFile(config)
+//@   loop 3 invariant[every_listed_host_maps_to_its_tag] forall t string :: forall i int :: has(H, t) && 0 <= i && i < len(*H[t]) ==> has(host2HostTag, (*H[t])[i]) && host2HostTag[(*H[t])[i]] == t
+//@   loop 3 invariant[mapped_hosts_have_distinct_keys] forall h1 string :: forall h2 string :: has(host2HostTag, h1) && has(host2HostTag, h2) && hostKeyOf(h1) == hostKeyOf(h2) ==> h1 == h2
+//@   loop 3 invariant[listed_tags_of_finished_products_map_to_their_product] forall q string :: forall j int :: visited(q) && has(T, q) && 0 <= j && j < len(*T[q]) ==> has(hostTag2Product, (*T[q])[j]) && hostTag2Product[(*T[q])[j]] == q
+//@   loop 4 invariant[the_file_is_as_checked] wfHostFile(config) && has(T, product) && hostTagList == T[product]
+//@   loop 4 invariant[every_listed_host_maps_to_its_tag] forall t string :: forall i int :: has(H, t) && 0 <= i && i < len(*H[t]) ==> has(host2HostTag, (*H[t])[i]) && host2HostTag[(*H[t])[i]] == t
+//@   loop 4 invariant[mapped_hosts_have_distinct_keys] forall h1 string :: forall h2 string :: has(host2HostTag, h1) && has(host2HostTag, h2) && hostKeyOf(h1) == hostKeyOf(h2) ==> h1 == h2
+//@   loop 4 invariant[listed_tags_of_finished_products_map_to_their_product] forall q string :: forall j int :: visited(q) && q != product && has(T, q) && 0 <= j && j < len(*T[q]) ==> has(hostTag2Product, (*T[q])[j]) && hostTag2Product[(*T[q])[j]] == q
+//@   loop 4 invariant[tags_of_this_product_so_far_map_to_it] forall j int :: 0 <= j && j <= rangeindex ==> has(hostTag2Product, (*hostTagList)[j]) && hostTag2Product[(*hostTagList)[j]] == product
+//@   assert[every_listed_host_maps_to_the_tag_that_lists_it] at "conf.HostMap = host2HostTag" :: forall t string :: forall i int :: has(H, t) && 0 <= i && i < len(*H[t]) ==> has(host2HostTag, (*H[t])[i]) && host2HostTag[(*H[t])[i]] == t
+//@   assert[every_listed_tag_maps_to_the_product_that_lists_it] at "conf.HostTagMap = hostTag2Product" :: forall q string :: forall j int :: has(T, q) && 0 <= j && j < len(*T[q]) ==> has(hostTag2Product, (*T[q])[j]) && hostTag2Product[(*T[q])[j]] == q
+//@   ensures[no_two_hosts_share_a_lookup_key] result1 == nil ==> (forall h1 string :: forall h2 string :: has(result0.HostMap, h1) && has(result0.HostMap, h2) && hostKeyOf(h1) == hostKeyOf(h2) ==> h1 == h2)
